@@ -70,6 +70,7 @@ def explore_c15(rng, tier, res, deep=False):
         max_recursion_depth = 2
 
     low = Low()
+    seen_valid = []
     for i in range(n):
         doc = doc_with_all_kinds(rng, rng.choice([2, 3]))
         q = walk_query(rng, doc, g, filters=True) if i % 2 else g.query()
@@ -91,6 +92,12 @@ def explore_c15(rng, tier, res, deep=False):
         k = rng.random()
         if i % 5 == 0:
             pass
+        elif k < 0.12 and seen_valid:
+            # a query text that differs from one used before on the same environments only by blank space at its ends
+            # (invalid: RFC 9535 allows none there), or is that earlier text again: anything remembered per query text
+            # by the string-taking entry points must not leak between texts
+            base = rng.choice(seen_valid)
+            q = rng.choice([base + " ", " " + base, base + "\n", "\n" + base, "\t" + base + " ", base, base + "  "])
         elif k < 0.25:
             q = gen.mutate(rng, q)
         elif k < 0.3:
@@ -112,6 +119,8 @@ def explore_c15(rng, tier, res, deep=False):
                 for nm in ("query.find", "query.apply", "query.finditer", "query.find_one"):
                     paths[nm] = c
             else:
+                if is_default and len(seen_valid) < 200 and q == q.strip():
+                    seen_valid.append(q)
                 paths["env.compile"] = "compiled"
                 paths["query.find"] = outcome(lambda: enc_list(c.find(doc)) + "|end")
                 paths["query.apply"] = outcome(lambda: enc_list(c.apply(doc)) + "|end")
@@ -160,6 +169,39 @@ def explore_c15(rng, tier, res, deep=False):
 # C14
 
 
+def edit_in_place(rng, v):
+    """one small in-place edit of a container: change/add/remove a member or element somewhere inside"""
+    spots = []
+
+    def rec(x):
+        if isinstance(x, (dict, list)):
+            spots.append(x)
+            for y in (x.values() if isinstance(x, dict) else x):
+                rec(y)
+
+    rec(v)
+    if not spots:
+        return
+    x = rng.choice(spots)
+    new = rng.choice([0, 1, 2, 3, "a", None, True, [1], {"v": 2}, {"a": 1}, 2.5])
+    if isinstance(x, dict):
+        k = rng.random()
+        if x and k < 0.5:
+            x[rng.choice(list(x.keys()))] = new
+        elif x and k < 0.7:
+            del x[rng.choice(list(x.keys()))]
+        else:
+            x[rng.choice(["a", "b", "v", "c"])] = new
+    else:
+        k = rng.random()
+        if x and k < 0.5:
+            x[rng.randrange(len(x))] = new
+        elif x and k < 0.7:
+            del x[rng.randrange(len(x))]
+        else:
+            x.insert(rng.randint(0, len(x)), new)
+
+
 def explore_c14(rng, tier, res, deep=False):
     import jsonpath_rfc9535 as jp
 
@@ -183,6 +225,7 @@ def explore_c14(rng, tier, res, deep=False):
         docs = [doc_with_all_kinds(rng, 2) for _ in range(3)]
         eph = [[{"v": 1}, {"v": 2}], [{"v": 1}, {"v": 2}, {"v": 1}], [0, [1], {"a": 2}], [[], 0], [{"a": 1, "b": [2]}], {"a": [1, 2], "b": 1}]
         hist = []
+        live_obj, live_arr = {}, []
         for _step in range(rng.randint(10, 40)):
             k = rng.random()
             if k < 0.12:
@@ -222,8 +265,19 @@ def explore_c14(rng, tier, res, deep=False):
             elif k < 0.8 and compiled:
                 qi = rng.randrange(len(compiled))
                 ei, q, c = compiled[qi]
-                if rng.random() < 0.5:
+                km = rng.random()
+                if km < 0.35:
                     doc = rng.choice(docs)
+                elif km < 0.6:
+                    # one long-lived container whose CONTENT is replaced in place between applications (the same
+                    # Python object, a different JSON value): caches keyed by the identity of the query argument
+                    src = json.loads(json.dumps(rng.choice(docs + eph)))
+                    if isinstance(src, dict):
+                        live_obj.clear(); live_obj.update(src); doc = live_obj
+                    elif isinstance(src, list):
+                        live_arr[:] = src; doc = live_arr
+                    else:
+                        doc = src
                 else:
                     # an ephemeral document (freshly decoded, dropped after the call): identity-keyed caches
                     # meet recycled object ids this way
@@ -278,6 +332,22 @@ def explore_c14(rng, tier, res, deep=False):
                                            "history": ["compile once, then apply to freshly decoded documents back to back: "] + [x[:60] for x in order],
                                            "what": "a reused compiled query gives a different nodelist than a fresh evaluation of equal data"})
                     break
+        # the same compiled query applied again and again to ONE object whose content is edited in place
+        for ei, q, c in compiled[:8]:
+            fresh = real.make_env(descs[ei])
+            for proto in ([{"v": 1}, {"v": 2}, {"v": 1}], {"a": [1, 2, 3], "b": 2}, rng.choice(docs)):
+                live = json.loads(json.dumps(proto))
+                for _edit in range(4):
+                    res.evaluations += 1
+                    got = outcome(lambda: enc_list(c.find(live)))
+                    want = outcome(lambda: enc_list(fresh.find(q, json.loads(json.dumps(live)))))
+                    if got != want:
+                        res.violations.append({"property": "C14", "query": q, "document": json.loads(json.dumps(live)), "env": descs[ei],
+                                               "observed": got[:300], "expected": want[:300],
+                                               "history": ["compile once, apply to one container object, edit the container in place, apply again"],
+                                               "what": "a reused compiled query gives a different nodelist than a fresh evaluation of equal data"})
+                        break
+                    edit_in_place(rng, live)
         res.nontrivial.add(tuple(str(h) for h in hist))
         res.sample({"history": [str(h)[:80] for h in hist[:8]]})
         pending.append(("hist\t(ops " + " ".join(ops_wire) + ")", outs_real, hist))
@@ -342,7 +412,17 @@ def explore_c16(rng, tier, res, deep=False):
     class Low(jp.JSONPathEnvironment):
         max_recursion_depth = 3
 
-    env_a, env_b = jp.JSONPathEnvironment(), Low()
+    class Mid(jp.JSONPathEnvironment):
+        max_recursion_depth = 6
+
+    def spine(depth):
+        """containers nested `depth` deep along the FIRST child, so a pre-order walk is deep after a few steps"""
+        v = rng.choice([0, "a", [], {}])
+        for _ in range(depth):
+            v = [v, 1] if rng.random() < 0.5 else {"a": v, "b": 0}
+        return v
+
+    env_a, env_b, env_c = jp.JSONPathEnvironment(), Low(), Mid()
     pool = ["$..*", "$[?@..*]", "$..[?@]", "$[?@[?@]]", "$.*", "$..a", "$[*][*]", "$[?@.a || @[0]]"]
     for _ in range(rounds):
         k = rng.choice([2, 2, 3])
@@ -350,10 +430,21 @@ def explore_c16(rng, tier, res, deep=False):
         shared_q = rng.choice(pool) if rng.random() < 0.5 else g.query()
         shared_doc = doc_with_all_kinds(rng, rng.choice([2, 3, 4]))
         shared_c = None
+        # "spine" rounds: the same compiled descendant query, on an environment with a low limit, over values nested
+        # close to that limit: anything the traversal keeps per query object rather than per iterator (a depth
+        # counter, a work list) makes the iterators' depths add up or reset each other
+        spine_round = rng.random() < 0.3
+        if spine_round:
+            spine_env = rng.choice([env_b, env_c])
+            shared_q = rng.choice(["$..*", "$..a", "$..[0]", "$..[?@]", "$..[?@.a]", "$..[*]", "$[?@..a]"])
+            shared_c = (spine_env, spine_env.compile(shared_q))
         for i in range(k):
             e = rng.choice([env_a, env_b])
             q = shared_q if rng.random() < 0.6 else (rng.choice(pool) if rng.random() < 0.5 else g.query())
             d = shared_doc if rng.random() < 0.6 else doc_with_all_kinds(rng, rng.choice([2, 3]))
+            if spine_round:
+                e, q = spine_env, shared_q
+                d = spine(rng.randint(max(1, spine_env.max_recursion_depth - 2), spine_env.max_recursion_depth + 1))
             try:
                 if q == shared_q and shared_c is not None and shared_c[0] is e:
                     c = shared_c[1]
@@ -370,7 +461,7 @@ def explore_c16(rng, tier, res, deep=False):
             s = drain(iter(c.finditer(d)))
             nodes, tail = s.rsplit("|", 1)
             seq = (nodes.split(" ") if nodes else []) + [tail]
-            solo.append(seq[:4])  # look at up to 3 items + what follows
+            solo.append(seq[: (10 if spine_round else 4)])  # look at the first items + what follows
         counts = [len(s) for s in solo]
         for sched in schedules(counts, cap, rng):
             res.evaluations += 1
